@@ -108,7 +108,8 @@ FALLBACK_SOURCES = ['set sleeptime "1";', 'stage { set userwx "false"; }', 'http
 
 PLAIN = "abcXYZ019 _-./:=+*()[]<>,!?@$%^&|~`'"
 NASTY_UNITS = ['\\"', "\\\\", "#", ";", "{", "}", "\n", "\\n", "\\x41", "\\u0041", "'", "\\'", " ", "\t", "# x", "/*", "é", "ı", "日", "\U0001F600",
-               "\\r", "\\t", "set", "}\n", "\\\\\\\\", '\\\\\\"', "\r"]
+               "\\r", "\\t", "set", "}\n", "\\\\\\\\", '\\\\\\"', "\r",
+               "\\u1242", "\\uff21", "\\u00ff", "\\u0100", "\\xff", "\\x00", "\\x7f", "\\u2603"]
 
 
 def gen_literal(rng, nasty=0.35) -> str:
